@@ -190,14 +190,10 @@ def defect_classes(pre, op):
             for s in g.nb(c, 'has', NS):
                 r += ifs_of_ns(s)
         return r
-    if kind in ('add_ns', 'node_add_ns') and 'L2Multisite' in a:
-        out.append('L2Multisite')
     if kind == 'rename' or (kind == 'set_prop' and a[1] == 'name'):
         new = a[1] if kind == 'rename' else a[2]
         if any(n[3] == new and n[0] != a[0][1] for n in g.nodes):
             out.append('name-collision')
-    if kind == 'add_facility' and a[3] and len(set(a[3])) < len(a[3]):
-        out.append('dup-ifnames')
     if kind == 'remove_link':
         for l in g.ids(LINK):
             if g.name(l) == a[0] and any(g.typ(c) == 'ServicePort' for c in g.nb(l, 'connects', CP)):
